@@ -214,19 +214,6 @@ Definition et0 : t_env :=
      th_wLowT := fun T => T * (%(mnu)s * %(am)s * Rpower T (%(mnu)s - 1) / 3);
      th_csqHighT := fun T => %(csqH)s; th_csqLowT := fun T => %(csqL)s;
      th_Tnucl := %(Tnucl)s |}.
-Ltac dec :=
-  repeat match goal with
-  | |- context [Rlt_dec ?a ?b] =>
-      destruct (Rlt_dec a b) as [E|E];
-      [first [clear E | idtac]
-      |first [exfalso; apply E; interval with (i_prec 90) | clear E]]
-  | |- context [Rmin ?a ?b] =>
-      first [rewrite (Rmin_left a b) by interval with (i_prec 90)
-            |rewrite (Rmin_right a b) by interval with (i_prec 90)]
-  | |- context [Rmax ?a ?b] =>
-      first [rewrite (Rmax_left a b) by interval with (i_prec 90)
-            |rewrite (Rmax_right a b) by interval with (i_prec 90)]
-  end.
 Ltac ev :=
   cbv beta iota zeta delta [t_init_cb2 t_init_cs2 t_init_alN t_init_psiN t_init_cb t_init_cs
     t_init_wN t_init_pN t_init_Tnucl t_init_nu t_init_mu t_init_epsilon
@@ -237,19 +224,19 @@ Ltac ev :=
     th_pHighT th_pLowT th_wHighT th_wLowT th_csqHighT th_csqLowT th_Tnucl];
   repeat match goal with
   | |- context [Rlt_dec ?a ?b] =>
-      first [ assert (E : a < b) by interval with (i_prec 90);
+      first [ assert (E : a < b) by interval with (i_prec 64);
               destruct (Rlt_dec a b) as [_|N]; [clear E|exfalso; exact (N E)]
-            | assert (E : ~ a < b) by (apply Rle_not_lt; interval with (i_prec 90));
+            | assert (E : ~ a < b) by (apply Rle_not_lt; interval with (i_prec 64));
               destruct (Rlt_dec a b) as [N|_]; [exfalso; exact (E N)|clear E] ]
   | |- context [Rmin ?a ?b] =>
-      first [rewrite (Rmin_left a b) by interval with (i_prec 90)
-            |rewrite (Rmin_right a b) by interval with (i_prec 90)]
+      first [rewrite (Rmin_left a b) by interval with (i_prec 64)
+            |rewrite (Rmin_right a b) by interval with (i_prec 64)]
   | |- context [Rmax ?a ?b] =>
-      first [rewrite (Rmax_left a b) by interval with (i_prec 90)
-            |rewrite (Rmax_right a b) by interval with (i_prec 90)]
+      first [rewrite (Rmax_left a b) by interval with (i_prec 64)
+            |rewrite (Rmax_right a b) by interval with (i_prec 64)]
   end;
   cbv beta iota delta [fst snd];
-  interval with (i_prec 90).
+  interval with (i_prec 64).
 """
 
 
@@ -352,8 +339,28 @@ def run(ctx):
                     "Interval tactic (certified evaluation; kernel primitive floats/ints)"]
     rng = ctx.rng
     stats = []
-    jobs = []
     nsets = ctx.n(22, 400)
+    # certified correspondence: files written and coqc started now, collected below
+    procs = []
+    if proved:
+        for m in range(ctx.n(2, 6)):
+            case = gen_params(rng)
+            try:
+                th, hg, ht = build(case)
+                allrows = eval_rows(case, th, ht, rng)
+                for c in range(0, len(allrows), 8):
+                    rows = allrows[c:c + 8]
+                    p = ctx.write("Cases/Eval_%d_%d.v" % (m, c // 8),
+                                  eval_file(case, th, ht, rows))
+                    procs.append(("%d_%d" % (m, c // 8), case, rows, p, subprocess.Popen(
+                        ["timeout", "600", "coqc"] + ctx.coq_args() + [p], cwd=ctx.bdir,
+                        stdout=subprocess.PIPE, stderr=subprocess.PIPE, text=True)))
+                if m == 0:
+                    ctx.sample(dict(case=case, vJ=[hg.vJ, ht.vJ], vMin=[hg.vMin, ht.vMin]))
+            except Exception:
+                ctx.log("correspondence rows failed", json.dumps(case),
+                        traceback.format_exc())
+                ctx.broken.append("harness: correspondence rows raised")
     t0 = time.time()
     for m in range(nsets):
         case = gen_params(rng)
@@ -362,18 +369,6 @@ def run(ctx):
         except Exception:
             ctx.log("harness exception", json.dumps(case), traceback.format_exc())
             ctx.broken.append("harness: compare raised")
-        if len(jobs) < ctx.n(2, 6) and gen_ok:
-            try:
-                th, hg, ht = build(case)
-                rows = eval_rows(case, th, ht, rng)
-                jobs.append((m, case, rows, ctx.write("Cases/Eval_%d.v" % m,
-                                                      eval_file(case, th, ht, rows))))
-                if m == 0:
-                    ctx.sample(dict(case=case, vJ=[hg.vJ, ht.vJ], vMin=[hg.vMin, ht.vMin]))
-            except Exception:
-                ctx.log("correspondence rows failed", json.dumps(case),
-                        traceback.format_exc())
-                ctx.broken.append("harness: correspondence rows raised")
     ctx.log("direct comparison: %d parameter sets, %d comparisons in %.1fs" % (
         nsets, len(stats), time.time() - t0))
     worst = {}
@@ -384,20 +379,15 @@ def run(ctx):
         ctx.log("worst %s difference / tolerance: %.3g at %s" % (kind, ratio,
                                                                 json.dumps(info)))
     ctx.cov["worst_difference_over_tolerance"] = {k: v[0] for k, v in worst.items()}
-    if proved:
-        procs = [(m, case, rows, p, subprocess.Popen(
-            ["timeout", "600", "coqc"] + ctx.coq_args() + [p], cwd=ctx.bdir,
-            stdout=subprocess.PIPE, stderr=subprocess.PIPE, text=True))
-            for m, case, rows, p in jobs]
-        for m, case, rows, p, pr in procs:
-            out, err = pr.communicate()
-            for _ in rows:
-                ctx.count("certified_eval")
-            if pr.returncode != 0:
-                ctx.broken.append("correspondence: certified evaluation Eval_%d" % m)
-                ctx.log("certified evaluation failed", vlib.tail(err, 8))
-                ctx.log("model", json.dumps(case))
-        ctx.log("certified evaluations: %d files" % len(procs))
+    for m, case, rows, p, pr in procs:
+        out, err = pr.communicate()
+        for _ in rows:
+            ctx.count("certified_eval")
+        if pr.returncode != 0:
+            ctx.broken.append("correspondence: certified evaluation Eval_%s" % m)
+            ctx.log("certified evaluation failed", vlib.tail(err, 8))
+            ctx.log("model", json.dumps(case))
+    ctx.log("certified evaluations: %d files" % len(procs))
     ctx.cov["rule"] = (
         "template parameter sets: psiN 0.5..0.995, cs2 0.2..1/3, cb2 0.2..cs2, alN = "
         "(1-psiN)/3 + 10^U(-3,-0.45) (transition towards the low-T phase), Tn = "
